@@ -248,6 +248,25 @@ func callWrites(e *Engine, c *ssa.CallCommon, ws writeSetT) {
 		return
 	}
 	mname := calleeModelName(callee)
+	if strings.HasSuffix(mname, "serde.Read") {
+		for _, a := range c.Args {
+			if mi, isMI := a.(*ssa.MakeInterface); isMI {
+				if n, isS := isStructPtr(mi.X.Type()); isS {
+					kind := wFull
+					if freshBase(mi.X) {
+						kind = wFresh // decoding into an object allocated by this activation
+					}
+					if s, ok := n.Underlying().(*types.Struct); ok {
+						for i := 0; i < s.NumFields(); i++ {
+							ws.add(structHeapName(n, s.Field(i).Name()), kind)
+						}
+					}
+				}
+			}
+		}
+		ws.add("$allocTop", wFull)
+		return
+	}
 	if w, ok := modelWrites[mname]; ok {
 		for _, x := range w {
 			ws.add(x, wFull)
@@ -281,6 +300,20 @@ func callWrites(e *Engine, c *ssa.CallCommon, ws writeSetT) {
 	}
 	for h, k := range e.writeSet(callee) {
 		ws.add(h, k)
+	}
+	if callee.Blocks == nil {
+		// external function: may write through struct pointers it receives (also when boxed into an interface)
+		for _, a := range c.Args {
+			if pt, ok := unalias(a.Type()).Underlying().(*types.Pointer); ok {
+				if n, ok := isStructVal(pt.Elem()); ok && namedPath(pt.Elem()) != "time.Time" {
+					forceAll(n, ws, 0)
+				}
+			} else if mi, isMI := a.(*ssa.MakeInterface); isMI {
+				if n, isS := isStructPtr(mi.X.Type()); isS {
+					forceAll(n, ws, 0)
+				}
+			}
+		}
 	}
 }
 
